@@ -17,6 +17,13 @@ def oggCodec (s : String) : Option Codec :=
   | "flac" => some .flac
   | _ => none
 
+/-- the pieces called directly (`_inject`, the comment constructors): what the tie calls "MutagenError
+or EOFError or IOError" -/
+def rawErr : PyErr → PyErr
+  | .eof => .mutagen
+  | .io => .mutagen
+  | e => e
+
 def showOutcome (f : Bytes) (r : Outcome) : String :=
   match r.err with
   | none => s!"ok v={hexField r.file}"
@@ -41,22 +48,22 @@ def ogginjectOp (a : Args) : String :=
       -- the pages `_inject` hands to OggPage.replace: old (offset@page), and new (as built, before
       -- replace numbers and flags them)
       match commentPages c f with
-      | .error e => s!"err {(wrapErr e).name}"
+      | .error e => s!"err {(rawErr e).name}"
       | .ok old =>
         let oldDesc := ";".intercalate (old.map fun r => s!"{r.offset}@{descPage r.page}")
         match toPackets (old.map (·.page)) false with
-        | .error e => s!"err {(wrapErr e).name}"
+        | .error e => s!"err {(rawErr e).name}"
         | .ok [] => "err index"
         | .ok (old0 :: others) =>
           match newPacket c old0 (a.bytes "vc") (a.bytes "paddata") (padOf a) f.length with
-          | .error e => s!"err {(wrapErr e).name}"
+          | .error e => s!"err {(rawErr e).name}"
           | .ok new0 =>
             match newPages c (new0 :: others) (old.map (·.page)) with
-            | .error e => s!"err {(wrapErr e).name}"
+            | .error e => s!"err {(rawErr e).name}"
             | .ok new => s!"ok old={oldDesc} new={descPages new}"
     | "read" =>
       match readComment c f (a.nat "serial") (a.nat "pos") with
-      | .error e => s!"err {(wrapErr e).name}"
+      | .error e => s!"err {(rawErr e).name}"
       | .ok data =>
         match loadComment c data with
         | .error e => s!"err {e.name}"
